@@ -33,3 +33,42 @@ def run_progs(out, sc, prop, params, label, nslices=12, shard_size=1500, backend
     for be in backends:
         shards += run_driver(sc, "url", params, label, backend=be, nslices=nslices, shard_size=shard_size)
     return validate(out, sc, "TraceUrl", prop, shards, label)
+
+
+VALUE_INVS = {
+    "C01": ["Inv_C01"], "C03": ["Inv_C03"], "C07": ["Inv_C07_Accessors", "Inv_C07_AuthSplit", "Inv_C07_Recompose"],
+    "C11": ["Frame"], "C15": ["Inv_C15"], "C19": ["Inv_C19_StrTotal"], "C17": ["Inv_C07_AuthSplit"],
+}
+
+
+def run_value_machine(out, sc, prop, tier, fields=None, extras=()):
+    """R1 + R2 on the URL value machine (spec/YarlValue.tla): TLC explores every modifier chain up to the depth, checking
+    the property's Level A clauses on Level I's observations; every explored TRANSITION (receiver value, action, arguments)
+    is then replayed on the real library -- the receiver rebuilt with URL(SplitResult(...), encoded=True) -- and TLC
+    validates the recorded observation (Level A clauses of the property + agreement with Level I's prediction)."""
+    import json as _json
+
+    from ..core import model_check, parse_dump_states
+    invs = VALUE_INVS[prop]
+    depth = 1 if tier == "quick" else 2
+    dump = sc.work / f"dump-value-{prop}"
+    cfg = "\n".join(["SPECIFICATION Spec", f"CONSTANT MaxDepth = {depth}"] + [f"INVARIANT {i}" for i in invs] + ["CHECK_DEADLOCK FALSE"]) + "\n"
+    res = model_check("YarlValue", cfg, sc.work, extra_args=["-dump", str(dump)], timeout=7200)
+    out.add_model(f"YarlValue[depth<={depth}]", res, what="URL value machine: every seed x every modifier x argument texts; " + ", ".join(invs))
+    states = parse_dump_states(str(dump) + ".dump")
+    calls = []
+    for st in states:
+        last = st.get("last", {})
+        if last.get("act") in (None, "seed"):
+            continue
+        prev = last["prev"]
+        five = [prev["scheme"], prev["netloc"], prev["path"], prev["query"], prev["fragment"]]
+        call = {"prog": [{"op": "split", "val": five}, last["args"]], "extras": list(extras)}
+        if fields:
+            call["fields"] = fields
+        calls.append(call)
+    if len(calls) > 60000:            # thorough tier: replay a deterministic sample of the explored transitions
+        calls = calls[:: len(calls) // 60000 + 1]
+    cf_ = sc.work / f"calls-value-{prop}.json"
+    cf_.write_text(_json.dumps(calls))
+    return run_progs(out, sc, prop, {"calls_file": str(cf_)}, f"value-{prop}", nslices=10, shard_size=1500)
